@@ -21,7 +21,7 @@ Contents
 5. Genuine defects found on the pinned tree, their repair, the one known finding
 6. Limits, honest non-coverage, tooling limits, known false-alarm surface
 7. Interface (commands, exit codes, evidence, known findings, thorough tier)
-8. Validation of the machinery: six rounds of seeded mutations, controls, seven
+8. Validation of the machinery: seven rounds of seeded mutations, controls, eight
    rounds of behaviour-preserving refactorings; which check catches which change;
    what was missed; false alarms met and how they were removed
 
@@ -111,7 +111,7 @@ on `stream.Merge`, i.e. on the same defect the ownership rule found (F2).
 /verif/evidence/Cnn.json   rewritten by every run
 /verif/reports/            violation reports named in "VIOLATION … replay=<path>" (git-ignored)
 /verif/controls/Cnn/*.diff 121 one-line control edits (tools/gen_controls.py)
-/verif/seeded/*/           340 sub-agent mutations with demonstration tests and meta.json
+/verif/seeded/*/           400 sub-agent mutations with demonstration tests and meta.json
 /verif/refactorings/*/     behaviour-preserving refactorings used as false-alarm tests
 /verif/tools/              baseline.sh, seed_import.sh, seed_confirm.sh, seed_run.sh, ref_run.sh, ref_all.sh, regress.sh,
                            gen_manifest.py, gen_matrix.py, gen_design.py, validate.py
@@ -470,8 +470,35 @@ to `/repo` itself, checked, and undone (`tools/seed_confirm.sh`, recorded in
   `C14|signal-tests-new-count`, `C17|trigger-send-unconditional`,
   `C19.callers-skip-advances`, `C19.written-maps-are-made`.
 
+* Round 7 (60, after the round-7 refactoring hardening; prompts listed all
+  seventeen earlier mutations per property): **36 caught at once, 24
+  missed**. Every miss was a function or a clause no rule had looked at yet (the
+  agents were told to go where nobody had been), so all the new rules are of kind
+  (c), *new necessary conditions*: `C01/C03.merge-after-failed-steal` (merge(x)
+  only on paths on which steal(x) has just returned false - by guard, or per
+  incoming edge of a merge of alternatives), `C01/C03.sibling-bounds` (strict
+  bound on `children[idx+1]`), `C01/C02.cursor-lands-on-leaf` (stepping off a
+  separator goes through leftmostLeaf / rightmostLeaf), `C03.remove-zeroes-tail`
+  (typestate: every exit of removeOne has cleared the vacated slot),
+  `C03/C01.split-reads-before-writes` (no right-half read through the amalgam view
+  is reachable from a left-half write without passing the block that builds the
+  view), `C04.grow-capacity`, `C04/C15.iter-end-is-equality` (ring positions are
+  not ordered), `C05.new-notifies-all` (every return of heap.New is dominated by
+  the notification loop or is under `len(initial) == 0`), `C07.param-effects`
+  (the C19 rule for the xslices namesakes), `C09.close-waits-on-every-path`,
+  `C10.signal-channels-fixed`, `C10.ctx-err-only-after-done` and
+  `C20.sleep-returns` (`ctx.Err()` is nil until Done is closed: it may be
+  returned only inside the Done arm or under a non-nil test; nil only where the
+  work was done), `C11.fresh-batch-after-handover`, `C12.merge-defer-order`,
+  `C14.bg-ctx-arm-returns-err`, `C14.default-covers-negatives`,
+  `C15.gen-only-incremented` (also a whole-value replacement must carry the
+  counter over), `C17.done-after-f`, `C18.set-always-publishes`,
+  `C19.backward-scan-reaches-zero`, `C19.mink-allocation`,
+  `C19.merge-result-in-out`, and `C02.children-one-more` (the C03 rule, for the
+  iterator that walks into a dropped child).
+
 A rule written after seeing a seed says so above; that is the honest reading of
-"caught": all 340 seeds are reported today; in rounds 2-6, 186 of 300 were
+"caught": all 400 seeds are reported today; in rounds 2-7, 222 of 360 were
 reported by the rules that existed when the seed arrived.
 
 ### 8.2 Controls
